@@ -59,8 +59,8 @@ def reported_matching(c):
     return M
 
 
-LARGE = {'quick': dict(n1=8, n2=13, n2min=10, n3=5, lmax=6),
-         'thorough': dict(n1=12, n2=24, n2min=10, n3=8, lmax=8)}
+LARGE = {'quick': dict(n1=8, n2=13, n2min=10, n3=12, lmax=6),
+         'thorough': dict(n1=12, n2=24, n2min=10, n3=14, lmax=8)}
 
 
 @st.composite
